@@ -17,7 +17,7 @@ IDENTS = [('alice', None), ('bob', None), ('alice', ['g1']), ('carol', [])]
 
 def plan(tier):
     return {
-        'level': 'exploration', 'shards': 16, 'budget_s': 60 if tier == 'quick' else 600,
+        'level': 'exploration', 'shards': 16, 'budget_s': 120 if tier == 'quick' else 600,
         'rule': 'random and per-object-focused well-formed requests (built from the payload '
                 'classes, surviving encode+decode under the request version) over populated '
                 'stores; a cell is (operation, target kind, target state, version, outcome reason); plus concurrent '
@@ -33,7 +33,7 @@ def plan(tier):
 
 
 def cases(tier, seed):
-    n = 48 if tier == 'quick' else 640
+    n = 128 if tier == 'quick' else 960
     m = 32 if tier == 'quick' else 400
     grid = [{'grid': k} for k in store.KINDS]
     crypto = [{'crypto': k} for k in ('encrypt', 'decrypt', 'sign', 'signature_verify', 'mac', 'derive_key', 'get')]
